@@ -1,9 +1,9 @@
 ENGINES = [
-    dict(name="pyvc", path="pyvc/", serves_properties=["C17", "C14", "C02", "C01", "C10", "C11", "C16", "C19", "C03", "C04", "C05", "C12", "C13", "C20", "C06", "C18"],
+    dict(name="pyvc", path="pyvc/", serves_properties=["C17", "C14", "C02", "C01", "C10", "C11", "C16", "C19", "C03", "C04", "C05", "C12", "C13", "C20", "C06", "C18", "C07", "C08", "C09", "C15"],
          kind_free_text="E1: AST -> verification-condition generator / symbolic executor over the real source text of /repo, sidecar contracts, z3 (cvc5 fall-back)"),
     dict(name="tabinv", path="tabinv/", serves_properties=["C01", "C10", "C11"],
          kind_free_text="E2: exact-arithmetic ground obligations on the coefficient tables dumped from the imported classes"),
-    dict(name="monitor", path="monitor/", serves_properties=["C17", "C14", "C01", "C02", "C10", "C11"],
+    dict(name="monitor", path="monitor/", serves_properties=["C17", "C14", "C01", "C02", "C10", "C11", "C03", "C05", "C06", "C07", "C08", "C09", "C12", "C13", "C16", "C18", "C19", "C20"],
          kind_free_text="E3: bounded native stand-ins and replay of counter-models under /venv/bin/python (never counted as proved)"),
 ]
 NOTES = ("Contract-based deductive verification of the real code; see DESIGN.md. Exit codes: 0 held, 1 VIOLATION, 2 undecided, 3 checker error. "
@@ -112,9 +112,9 @@ CHECKS["C20"] = dict(level="proof", engine="pyvc",
     design_ref="DESIGN.md section 4 C20")
 CHECKS["C06"] = dict(level="proof", engine="pyvc",
     text="DenseOutput under contract with symbolic-length lists: add_interpolant keeps the ordering/coverage and cache invariants, lookup (value, gradient, vector) answers every query in the integrated range from the piece "
-         "whose interval contains it, remove_interpolant(0) drops the oldest piece; integrate() with dense output kept (forward): exactly one piece per recorded step spanning [t_i, t_i+1] on normal and exceptional exit and across "
+         "whose interval contains it, remove_interpolant drops the oldest / newest piece per direction (both run directions, pieces may leave gaps); integrate() with dense output kept (forward): exactly one piece per recorded step spanning [t_i, t_i+1] on normal and exceptional exit and across "
          "continued calls; dense_output() builds the Hermite piece from (t, y, f) at both ends; the integrators leave initial_rhs == rhs(t, y) and final_rhs == rhs(t + dTime, y + dState) whatever the previous call's end point "
-         "(with C17: nodes reproduced, C^1 joins with slopes equal to the right-hand side). Backward runs are a recorded known finding (F11).",
+         "(with C17: nodes reproduced, C^1 joins with slopes equal to the right-hand side). The backward lookup defect F11 was repaired (fix: commit edcff3c) and its obligations are now discharged.",
     note="O(h^4) between nodes = cubic exactness (C17) + Peano kernel theorem (A8); Richardson wrappers only natively; events in C07-C09; A1",
     technique="data-structure invariant over an abstract view (parallel z3 arrays), contracts at call sites, LinComb domain for the slope clause",
     design_ref="DESIGN.md section 4 C06")
@@ -126,4 +126,39 @@ CHECKS["C18"] = dict(level="proof", engine="pyvc",
     note="OdeSystem.__init__ represented by its contract; shapes for n-d states, dtypes and scipy parity are a bounded native family; getfullargspec / sort / transpose assumed (A3); A1",
     technique="modular verification of the facade against callee contracts + loop invariant for the max_step chain",
     design_ref="DESIGN.md section 4 C18")
+CHECKS["C07"] = dict(level="proof", engine="pyvc",
+    text="handle_events (real text; 1, 2 event functions, all directions x terminal flags, both time directions; root finder by its C14 contract): returned roots inside the step, certified, in integration order, direction "
+         "compatible with a sampled crossing. OdeSystem.integrate with events (real text incl. prepare_events, the recording loop, duplicate suppression, terminal branch, pruning; real DenseOutput.add/remove over symbolic-length "
+         "lists): records of earlier calls untouched; each record of this call lies in the step it was found in, between the start of the call and the current time; its state is the dense solution at its time "
+         "(sol(t) answered by a piece containing t: C06 contract, pre-condition proved at the call site); records in integration order; two records of one event made by one call are more than eps^0.7 apart "
+         "(invariant: last_occurrence[k] is the latest record of event k).",
+    note="'within tolerance of a true root along the exact trajectory' is numerical analysis: bounded native family against closed-form crossings only; uniqueness is per call (cross-call re-detection on a terminal event is "
+         "known finding F27); dense output kept + events only natively; quick tier: n = 1 both directions, n = 2 forward; A1, A4",
+    technique="contracts + loop invariant (ghost: latest record per event) on the real integrate / handle_events, callee contracts proved in C14 / C06 and re-proved here, VCs (arrays, quantifiers) by z3",
+    design_ref="DESIGN.md section 10 (events)")
+CHECKS["C08"] = dict(level="proof", engine="pyvc",
+    text="The completeness chain, link by link on the real functions: (1) Brent success on a sign-changing bracket at any scale (C14 P5); (2) handle_events no-miss lemma: a certified strict sign change with a compatible "
+         "direction is among the returned events unless it lies after the terminal event that cut the list (isolated-crossing hypothesis explicit); (3) integrate records every returned root in the same iteration unless it "
+         "repeats the latest record of that event (ghost obligation at the end of every loop iteration); (4) at the call of handle_events the newest piece of the real DenseOutput spans exactly [t_prev, t_next] and DO_Inv holds, "
+         "both directions; (5) pruning with dense output off keeps that piece: once a step is recorded the newest piece ends at the current time (loop invariant), remove_interpolant drops the oldest piece in both directions.",
+    note="link (1) holds unless the 64-iteration cap binds (bounded native); the float-spacing defect F9b (repaired) was outside A1 and found by the bounded family; 1..6 events / 12 orders of magnitude only natively; A1, A4",
+    technique="chain of contracts (callee post => caller pre) on the real code, ghost obligations per loop iteration, z3",
+    design_ref="DESIGN.md section 10 (events)")
+CHECKS["C09"] = dict(level="proof", engine="pyvc",
+    text="integrate() with terminal events (every mix for n = 1, 2; both directions): handle_events cuts its list after the first terminal event; the terminal branch (roll back, drop the step's interpolant, integrate(root) by "
+         "integrate's own contract proved in the same run, status 2) gives: last record = the terminal event, all earlier records of the call non-terminal and not later, last recorded time within 8 eps of the event time and never "
+         "beyond it, buffers trimmed to it, status 2 reported as success with its message; otherwise status 1 and the run ends at its target; the post-state satisfies the representation invariant (trajectory + step interpolants) "
+         "the next call requires, on normal and exceptional exit.",
+    note="'last state on the event surface', dense output kept, infinite targets and continuation results are bounded native clauses; continuing with the same terminal event still monitored is known finding F27; A1",
+    technique="contract + loop invariant on the real integrate with the recursive call replaced by its own proved contract, z3",
+    design_ref="DESIGN.md section 10 (events)")
+CHECKS["C15"] = dict(level="proof", engine="pyvc",
+    text="Success-flag dataflow of hybrj, newtontrustregion and nonlinear_roots on their real text, for every tolerance, iteration budget and problem size (arrays opaque, norms uninterpreted, unmodelled comparisons "
+         "nondeterministic, iteration loops cut by invariants): a reported success entails a residual norm below the tolerance at the returned point unless it was reached through the step-size termination rule "
+         "(region A-xtol, bounded native only); the residual handed back is f at the point handed back (identity links along every path); in the front end the reported precision is that residual norm on the "
+         "dogleg and Newton branches, success means a small residual or the step-size rule, and a failed attempt restarts the next solver from the caller's x0. The two defects this refuted (F18 trust-region collapse "
+         "counted as success, F18b step norm reported as precision) were repaired.",
+    note="what is proved is the dataflow of the flags, not convergence; MINPACK branch external (A6); the step-size rule region and result shapes are bounded native clauses (n = 1..12, float64 / longdouble); scalar wrapper not under contract",
+    technique="contracts + cut for-loops on the real AST with an opaque-value abstraction of the linear algebra, ghost identity links, z3",
+    design_ref="DESIGN.md section 10 (C15)")
 NOT_APPLICABLE = {}
